@@ -4,6 +4,7 @@ import (
 	"math"
 	"strconv"
 	"strings"
+	"unicode/utf8"
 
 	"github.com/tableauio/tableau/log"
 	"github.com/tableauio/tableau/proto/tableaupb"
@@ -58,8 +59,15 @@ func CheckInRange(prop *tableaupb.FieldProp, fd protoreflect.FieldDescriptor, va
 			}
 		}
 	case protoreflect.Uint32Kind, protoreflect.Fixed32Kind,
-		protoreflect.Uint64Kind, protoreflect.Fixed64Kind:
-		v := value.Uint()
+		protoreflect.Uint64Kind, protoreflect.Fixed64Kind,
+		protoreflect.StringKind:
+		var v uint64
+		if fd.Kind() == protoreflect.StringKind {
+			// string: count of utf-8 code point
+			v = uint64(utf8.RuneCountInString(value.String()))
+		} else {
+			v = value.Uint()
+		}
 		if leftStr != "~" {
 			left, err := strconv.ParseUint(leftStr, 10, 64)
 			if err != nil {
